@@ -26,6 +26,7 @@ func repoDir() string {
 	}
 	return "/repo"
 }
+
 const OrigamiMod = "github.com/php-any/origami"
 
 // Overlay returns the virtual files injected into /repo (export shims).
